@@ -144,6 +144,7 @@ func VerifAdjustFitness(s *Species, opts *neat.Options)           { s.adjustFitn
 func VerifCountOffspring(s *Species, skim float64) (int, float64) { return s.countOffspring(skim) }
 func VerifAddOrganism(s *Species, o *Organism)                    { s.addOrganism(o) }
 func VerifRemoveOrganism(s *Species, o *Organism) (bool, error)   { return s.removeOrganism(o) }
+func VerifFindChampion(s *Species) *Organism                      { return s.findChampion() }
 func VerifSpeciesReproduce(s *Species, ctx context.Context, generation int, pop *Population, sorted []*Species) ([]*Organism, error) {
 	return s.reproduce(ctx, generation, pop, sorted)
 }
